@@ -222,6 +222,8 @@ def _member(X, v, st, r):
         return z3.Or([_member(X, x, st, r) for x in v.items] or [FALSE])
     if isinstance(v, NoneV):
         return FALSE
+    if isinstance(v, CondDes):
+        return z3.And(v.cond, _member(X, v.val, st, r))
     raise VCError(f"modifies designator {v!r}")
 
 
@@ -234,6 +236,8 @@ def _list_member(X, v, r):
         return z3.Or([_list_member(X, x, r) for x in v.items] or [FALSE])
     if isinstance(v, NoneV):
         return FALSE
+    if isinstance(v, CondDes):
+        return z3.And(v.cond, _list_member(X, v.val, r))
     raise VCError(f"@lists designator {v!r}")
 
 
@@ -277,15 +281,15 @@ def apply_contract(X, st, C, env, node):
         for fld in C_modifies:
             if fld == "@lists":
                 for a in ("@len", "@el"):
-                    post.heap[a] = fresh(a, post.heap[a].sort())
+                    post.heap[a] = fresh("H" + a[1:], post.heap[a].sort())
                 continue
             if fld == "@alloc":
                 continue
             post.heap[fld] = fresh(fld, post.heap[fld].sort())
             if fld + "?" in post.heap:
-                post.heap[fld + "?"] = fresh(fld + "?", post.heap[fld + "?"].sort())
+                post.heap[fld + "?"] = fresh(fld + "_isnone", post.heap[fld + "?"].sort())
         if C_modifies:
-            post.heap["@alloc"] = fresh("@alloc", post.heap["@alloc"].sort())
+            post.heap["@alloc"] = fresh("H_alloc", post.heap["@alloc"].sort())
             r = fresh("r")
             post.pc.append(z3.ForAll([r], z3.Implies(st.heap["@alloc"][r], post.heap["@alloc"][r]), patterns=[post.heap["@alloc"][r]]))
             from .engine import heap_typing
